@@ -635,3 +635,13 @@ Proof.
   intros now targets st P F. unfold defer. rewrite P.
   rewrite (dl_run_per_noop now targets (s_per st) st [] F). reflexivity.
 Qed.
+
+(* the same with a computable hypothesis *)
+Theorem dl_defer_noop_b : forall now targets st,
+  s_paused st = false ->
+  forallb (fun id => skipped (nd_status (s_node st id))) (s_per st) = true ->
+  defer now targets st = (st, None).
+Proof.
+  intros now targets st P F. apply dl_defer_noop; [exact P|].
+  apply Forall_forall. intros x I. rewrite forallb_forall in F. apply F. exact I.
+Qed.
